@@ -154,9 +154,12 @@ theorem stream_cmds_names (x : XCfg) (s : StreamE) (k : Bytes) : ∀ c ∈ s.cmd
     · simp at hc
   · subst hc; exact Or.inr (Or.inl rfl)
   · obtain ⟨g, _, hg⟩ := hc
-    simp only [SGroupE.cmds, List.mem_cons, List.mem_flatMap, List.mem_map] at hg
-    rcases hg with rfl | ⟨c0, _, p, _, rfl⟩
+    simp only [SGroupE.cmds, List.mem_cons, List.mem_flatMap, List.mem_append, List.mem_map] at hg
+    rcases hg with rfl | ⟨c0, _, hcc | ⟨p, _, rfl⟩⟩
     · exact Or.inr (Or.inr (Or.inl rfl))
+    · split at hcc
+      · simp only [List.mem_singleton] at hcc; subst hcc; exact Or.inr (Or.inr (Or.inl rfl))
+      · cases hcc
     · exact Or.inr (Or.inr (Or.inr rfl))
 
 theorem stream_cmds_keyCmd (x : XCfg) (s : StreamE) (k : Bytes) : ∀ c ∈ s.cmds x k, keyCmd c := by
